@@ -390,6 +390,19 @@ def check(case) -> list[Fail]:
         if not same:
             f.append(Fail("idempotent", type(b).__name__, f"node {n.idx}"))
             break
+    # resolution never un-resolves: a later registry that knows nothing leaves every operation as it is
+    import hugr.ext as hext
+
+    snap2 = {n.idx: (type(h[n].op).__name__, json.loads(h[n].op._to_serial(n).model_dump_json())) for n in h}
+    try:
+        h.resolve_extensions(hext.ExtensionRegistry())
+        for n in h:
+            now = (type(h[n].op).__name__, json.loads(h[n].op._to_serial(n).model_dump_json()))
+            if now != snap2[n.idx]:
+                f.append(Fail("resolve-op", "changed-by-a-later-empty-registry:" + snap2[n.idx][0] + "->" + now[0], f"node {n.idx}"))
+                break
+    except Exception as e:  # noqa: BLE001
+        f.append(exc_fail("resolve-again-raises", e))
     # bare expressions
     for t in case["bare"]:
         x = mk_type(ref.opaquify(t))
